@@ -453,6 +453,36 @@ def mentioned_nested(s: G.Schema) -> List[Any]:
     return out
 
 
+def transitive_qualifiers(s: G.Schema) -> Set[str]:
+    """names under which a THIRD file is visible inside an imported file X, for every single-typed definition of the third
+    file that the renderers reach from a field of `s` by descending through an alias declared in X"""
+    out: Set[str] = set()
+
+    def inside(t: Any, x: G.Schema, depth: int) -> None:
+        if isinstance(t, G.TArray):
+            inside(t.elem, x, depth)
+        elif isinstance(t, G.TRef) and depth < 12:
+            e = t.d
+            y = getattr(e, "home", None)
+            if y is not None and y is not x and y is not s and isinstance(e, (G.EnumDef, G.AliasDef)):
+                try:
+                    out.add(visible_name(x, y))
+                except KeyError:
+                    pass
+            if isinstance(e, G.AliasDef):
+                inside(e.type, y if y is not None else x, depth + 1)
+
+    def walk(t: Any) -> None:
+        if isinstance(t, G.TArray):
+            walk(t.elem)
+        elif isinstance(t, G.TRef) and isinstance(t.d, G.AliasDef) and getattr(t.d, "home", None) not in (None, s):
+            inside(t.d.type, t.d.home, 0)
+
+    for (h, a) in ref_slots(s):
+        walk(getattr(h, a))
+    return out
+
+
 def visible_name(s: G.Schema, imp: G.Schema) -> str:
     for (i, as_name) in s.imports:
         if i is imp:
@@ -507,12 +537,14 @@ def build_file(rng: random.Random, pg: G.ProgramGen, visible: List[G.Schema], id
     for v in visible:
         used = any(getattr(d, "home", None) is v for d in [getattr(h, a).d for (h, a) in ref_slots(s)])
         cands = top_types(v)
-        with_fields = [m for m in msgs if m.fields]
-        if not used and cands and with_fields and r.random() < 0.93:
-            m = r.choice(with_fields)
-            f = r.choice(m.fields)
+        if not used and cands and msgs and r.random() < 0.93:
+            m = r.choice(msgs)
             d = r.choice(cands)
-            f.type = G.TArray(G.TRef(d), r.choice([1, 2, 3]), False) if r.random() < 0.3 else G.TRef(d)
+            num = min(k for k in range(1, 256) if k not in {f.num for f in m.fields})
+            t = G.TArray(G.TRef(d), r.choice([1, 2, 3]), False) if r.random() < 0.3 else G.TRef(d)
+            if isinstance(d, G.MsgDef) and d is m:
+                continue
+            m.fields.insert(0, G.Field(f"fx_{num}", num, t))
     # alias of an array of an imported type
     for d in s.defs:
         if isinstance(d, G.AliasDef) and isinstance(d.type, G.TArray) and visible and r.random() < 0.3:
@@ -567,6 +599,21 @@ def build_program(rng: random.Random, k: int) -> Prog:
         built[name] = s
         order.append(s)
     main = built["main"]
+    # the same plain name nested in different parents (Outer1.Inner / Outer2.Inner stay distinct after flattening; -F selects by
+    # plain name): only definitions nested directly in a top-level message, one message and one enum per parent
+    if r.random() < 0.4:
+        n_shared = 0
+        for s in order:
+            for d in s.defs:
+                if not isinstance(d, G.MsgDef):
+                    continue
+                for kind, new in ((G.MsgDef, "Inner"), (G.EnumDef, "Kind")):
+                    cands = [x for x in d.nested if isinstance(x, kind)]
+                    if cands and r.random() < 0.7 and not any(x.name == new for x in d.nested):
+                        cands[0].name = new
+                        n_shared += 1
+        if n_shared >= 2:
+            feats.add("same-nested-name-in-different-parents")
     # message names ending in digits (not the KF-c-helper-name collision class: checked below)
     renamed: List[Tuple[G.MsgDef, str]] = []
     if r.random() < 0.4:
@@ -1363,6 +1410,8 @@ def route(p: Prog, f: Dict[str, Any]) -> Optional[str]:
             return None
         if any(norm(f.get("name")) == flat(d) for d in mentioned_nested(s)):
             return "KF-nested-import"
+        if kind == "go-undeclared" and f.get("name") in transitive_qualifiers(s) and f.get("name") not in {(a or i.proto) for (i, a) in s.imports}:
+            return "KF-go-transitive-qualifier"
         return None
     if kind == "go-unused-import":
         s = schema_by_fname(p, f.get("src"))
@@ -1382,6 +1431,8 @@ def route(p: Prog, f: Dict[str, Any]) -> Optional[str]:
 KF_TEXT = {
     "KF-nested-import": "a type nested in a message of an IMPORTED file is emitted unqualified in Python and Go (NameError on import / undeclared Go identifier)",
     "KF-go-unused-import": "a Go import whose only use in the schema is a constant (or nothing) is never mentioned in the Go file (Go rejects unused imports)",
+    "KF-go-transitive-qualifier": "Go: an element type of a THIRD file reached through an imported alias (top -> mid.Kinds = bs.Kind[2]) is cast in BpSetByte "
+                                  "under the import name it has inside the intermediate file (`bs.Kind(b)`), which the top file never imports",
     "KF-c-helper-name": "message A1 with array field 2 and message A with array field 12 both yield the C helper BpXXXProcessArrayA12 (gcc: redefinition)",
     "KF-include-name": "imported file whose base name differs from its proto name: #include / import use the proto name, the generated file uses the base name",
     "KF-empty-struct": "empty message: sizeof 0 in C (GNU), 1 in C++ - layout differs between the two languages",
@@ -1417,6 +1468,14 @@ def witnesses(run: common.Run, env: Env) -> Dict[str, bool]:
                                 {"top.bitproto": {"shared": "shared.bitproto"}}),
        lambda fs: any(f["kind"] == "py-import" and f.get("exc") == "NameError" and norm(f.get("name")) == "outerkind" for f in fs)
        and any(f["kind"] == "go-undeclared" and norm(f.get("name")) == "outerkind" for f in fs))
+    go("KF-go-transitive-qualifier",
+       wjob({"base.bitproto": "proto base\n\nenum Kind : uint3 {\n    KIND_A = 0\n    KIND_B = 1\n}\n",
+             "mid.bitproto": 'proto mid\n\nimport bs "base.bitproto"\n\ntype Kinds = bs.Kind[2]\n',
+             "top.bitproto": 'proto top\n\nimport "mid.bitproto"\n\nmessage M {\n    mid.Kinds ks = 1\n}\n'},
+            ["base.bitproto", "mid.bitproto", "top.bitproto"], "top.bitproto", ["c", "py", "go"],
+            {"top.bitproto": {"mid": "mid.bitproto"}, "mid.bitproto": {"bs": "base.bitproto"}}),
+       lambda fs: any(f["kind"] == "go-undeclared" and f.get("name") == "bs" and f.get("src") == "top.bitproto" for f in fs)
+       and not any(f["cfg"] in ("c", "py") for f in fs))
     go("KF-c-helper-name", wjob({"helper.bitproto": "proto helper\n\nmessage A1 {\n    byte[2] x = 2\n}\n\nmessage A {\n    byte[2] y = 12\n}\n"},
                                 ["helper.bitproto"], "helper.bitproto", ["c"]),
        lambda fs: any(f["kind"] == "gcc-error" and "redefinition" in f["detail"] and "ArrayA12" in f["detail"] for f in fs)
